@@ -84,9 +84,12 @@ CLAIMED = {
         "_run, C11_listed_accepted_multisig); another signature for a listed key gains nothing from the option (C11_other_signature_not_accepted, _multisig_step); "
         "unlisted keys are unaffected at every level up to whole scripts: if along the run without the option every executed signature opcode examines only "
         "unlisted keys, the run with the option visits the same states and ends alike (C11_unlisted_unaffected, C11_execOp_unlisted, C11_evalInstrs_unlisted, "
-        "C11_script_unlisted); the option parser accepts exactly the well-formed lists and builds tables denoting the listed pairs provided no signature is listed "
-        "for two keys (parse_accepts, parse_rejects, parse_agree_tables, parse_gives_CfgRel_clauses; the excluded region is the known finding, with a decide-checked "
-        "witness F_C11_dup_sig_tables). Correspondence: pair lists x scripts with CHECKSIG/VERIFY/MULTISIG/ADD using listed, unlisted, crossed pairs x three signature "
+        "C11_script_unlisted); the option parser accepts exactly the well-formed lists and, for EVERY well-formed list (a signature may be listed for several keys, "
+        "a key with several signatures, a pair repeatedly), builds a key set and a duplicate-free pair set denoting exactly the listed pairs (parse_accepts, "
+        "parse_rejects, parse_agree_tables, parse_gives_CfgRel_clauses, parse_gives_mockHit; same_sig_two_keys_tables/_effect for the list S:P1,S:P2); joined "
+        "end to end from the option text to the opcodes (C11_text_listed_checksig, _OP_CHECKSIG/VERIFY/ADD, _multisig, C11_text_unlisted_pair_checksig, "
+        "_multisig_step, C11_text_unlisted_keys_multisig, C11_text_CfgRel_clauses). Correspondence: pair lists (incl. one signature under two keys, which must be "
+        "accepted for both) x scripts with CHECKSIG/VERIFY/MULTISIG/ADD using listed, unlisted, crossed pairs x three signature "
         "versions x flag sets, metamorphic with/without the option, malformed lists.",
         "DESIGN.md section 6 (C11)", "Lean 4 proofs (short-circuit lemmas, non-interference by induction over the run, parser equivalence) + differential and metamorphic correspondence"),
     "C06": claim(
@@ -166,12 +169,11 @@ CLAIMED = {
         "decodes back; reverse is an involution; add/sub are (a±b) mod g on the integers for all operands (mod 2^256 without modulus); the Jacobi loop equals the "
         "recursive reciprocity law; extract_values reads back exactly the operands written (numbers -1..16 and empty values included); base58chk/bech32/address "
         "transforms invert each other; addr-to-scriptpubkey, bech32-decode and verify-sig end normally on every value and yield data only from genuine encodings; "
-        "inline form = command form for every table row do_exec knows, down to the text name(arg) (inline_text), and "
+        "inline form = command form for every row of the tf table, under the do_exec name and under the name tf -h prints, down to the text name(arg) (inline_text), and "
         "OP_SHA256/RIPEMD160/HASH160/HASH256 push the transform's bytes. Correspondence: every tf table entry x argument shapes x lengths across 55/56/64, 252/253, "
         "65535/65536, all single-character corruptions of sample base58check/bech32/bech32m strings, arithmetic/Jacobi/key/signature grids and the reproducers of "
         "the repaired defects, through fn_tf and the Value parser in-process (stdout, stderr, return value), an interactive btcdeb pty session and the btcc "
-        "binary, against the Lean model, the Lean specification and an independent Python oracle. Known finding: rows of the tf table without (or with a "
-        "differently named) inline form.",
+        "binary, against the Lean model, the Lean specification and an independent Python oracle.",
         "DESIGN.md section 6 (C14)", "Lean 4 proofs (numeral uniqueness, GF(2)-linearity of the BCH remainder, state invariants of ConvertBits, totality by composition) + four-voice differential correspondence"),
     "C15": claim(
         "Every place where the C++ can die (assertion, arithmetic trap, out-of-bounds access, uncaught exception) is an explicit outcome of the Lean models; "
